@@ -1465,6 +1465,49 @@ def c14_trajectory(run, Nmax=3, programs=60):
                             break
                     if not okb or not O.eq(O.rho(fin), Rb):
                         b.fail('circuit_backward_adjoint', 'backward(final state) is not the adjoint of the recorded trajectory', dict(inp, record=rec))
+            # a SUPPLIED record overrides the circuit's own: a second run of an identical circuit gives another possible trajectory
+            # (record rec2, final state fin2); the first circuit object, asked to go backward along rec2, must return the adjoint of
+            # THAT trajectory -- also when it has never been run forward itself
+            if rec and pure_in:
+                def build():
+                    c_ = pcirc.Circuit(N)
+                    for it in items:
+                        if it[0] == 'M':
+                            c_.measure(*it[1])
+                        else:
+                            c_.take(it[1].copy())
+                    return c_
+
+                def adjoint(rec_, Rfin):
+                    Rb_, ptr_ = Rfin, len(rec_)
+                    for it in reversed(items):
+                        if it[0] == 'G':
+                            Rb_ = lin_apply(lambda o, g=it[1]: g.copy().backward(o), Rb_, N)
+                        else:
+                            for qq in reversed(it[1]):
+                                ptr_ -= 1
+                                Pi = (np.eye(2 ** N) + int(rec_[ptr_]) * O.dense(zstring(N, qq))) / 2
+                                Rb_ = Pi @ Rb_ @ Pi
+                                t = np.trace(Rb_).real
+                                if t < 1e-12:
+                                    return None
+                                Rb_ = Rb_ / t
+                    return Rb_
+                try:
+                    circB = build()
+                    st2 = mk_state(gs, ps, 0)
+                    circB.forward(st2)
+                    rec2 = list(circB.measure_result)
+                    want = adjoint(rec2, O.rho(st2))
+                    for label, cobj in (('after its own forward run', circ), ('never run forward', build())):
+                        b.case()
+                        fin2 = mk_state(st2.gs, st2.ps, st2.r)
+                        cobj.backward(fin2, measure_result=list(rec2))
+                        if want is None or not O.eq(O.rho(fin2), want):
+                            b.fail('circuit_backward_supplied_record', 'backward with a supplied record (%s) is not the adjoint of the supplied trajectory' % label,
+                                   dict(inp, own_record=rec if cobj is circ else None, supplied=rec2))
+                except Exception as e:
+                    b.fail('circuit_backward_supplied_record.raises', repr(e)[:200], dict(inp, record=rec))
             # an impossible record must raise
             if rec:
                 flipped = [-x for x in rec]
@@ -2151,8 +2194,16 @@ def c20_formats(run, Nmax=3):
                     inp = {'format': fname, 'arg': arg if not isinstance(arg, np.ndarray) else lst(arg), 'N': N}
                     b.case(sample=inp)
                     ok, q = guard(b, 'parse_' + fname.split(':')[0], (lambda: pa.pauli(arg, N)) if fname == 'dict' else (lambda: pa.pauli(arg)), inp)
-                    if ok and not ((np.asarray(q.g) == g).all() and int(q.p) == p and len(q.g) == 2 * N):
+                    if ok and not (len(q.g) == 2 * N and (np.asarray(q.g) == g).all() and int(q.p) == p):
                         b.fail('parse', 'pauli(%r) = (%s,%s), expected (%s,%d)' % (arg if not isinstance(arg, np.ndarray) else lst(arg), lst(q.g), q.p, lst(g), p), inp)
+                    if fname != 'dict':
+                        # the same description with the qubit number given explicitly (keyword and positional), and inside paulis(..., N=N)
+                        for how, f_ in (('N=', lambda: pa.pauli(arg, N=N)), ('positional N', lambda: pa.pauli(arg, N)),
+                                        ('paulis(N=)', lambda: pa.paulis(arg, arg, N=N)[1])):
+                            b.case()
+                            ok2, q2 = guard(b, 'parse_N_' + fname.split(':')[0], f_, dict(inp, how=how))
+                            if ok2 and not (len(q2.g) == 2 * N and (np.asarray(q2.g) == g).all() and int(q2.p) == p):
+                                b.fail('parse_explicit_N', 'pauli(%r, %s) = (%s,%s), expected (%s,%d)' % (arg if not isinstance(arg, np.ndarray) else lst(arg), how, lst(q2.g), q2.p, lst(g), p), dict(inp, how=how))
                 o = P(g, p)
                 b.case()
                 back = pa.pauli(repr(o).replace(' ', ''))
